@@ -331,6 +331,9 @@ func sanitize(n string) string {
 }
 
 // traceIntrinsic evaluates the verifspec.Trace* helpers against the ghost trace of the current path.
+// curResultType is the result type of the trace helper being evaluated (for the "no such event" zero value).
+var curResultType types.Type
+
 func (e *Engine) traceIntrinsic(s *State, name string, args []Val) (Val, bool) {
 	idx := func(v Val) int {
 		t := s.res(v.(Term))
@@ -371,14 +374,23 @@ func (e *Engine) traceIntrinsic(s *State, name string, args []Val) (Val, bool) {
 			panic("TraceIs needs a constant name")
 		}
 		return boolT(i >= 0 && i < len(s.trace) && strings.HasSuffix(s.trace[i].Name, *nm.Const)), true
+	case "vsTraceArg":
+		i, k := idx(args[0]), idx(args[1])
+		if i < 0 || i >= len(s.trace) || k < 0 || k >= len(s.trace[i].Args) {
+			return e.zero(s, curResultType), true
+		}
+		return s.trace[i].Args[k], true
+	case "vsTraceRet":
+		i, k := idx(args[0]), idx(args[1])
+		if i < 0 || i >= len(s.trace) || k < 0 || k >= len(s.trace[i].Results) {
+			return e.zero(s, curResultType), true
+		}
+		return s.trace[i].Results[k], true
 	case "vsTraceBytes", "vsTraceInt", "vsTraceArg8", "vsTraceArg32", "vsTraceArgStr":
 		i, k := idx(args[0]), idx(args[1])
 		if i < 0 || i >= len(s.trace) || k < 0 || k >= len(s.trace[i].Args) {
 			// no such event on this path: the clause must have guarded this with TraceLen/TraceIs
-			if name == "vsTraceBytes" {
-				return SliceV{refT(0), intT(0), intT(0), intT(0), types.Typ[types.Uint8]}, true
-			}
-			return intT(0), true
+			return e.zero(s, curResultType), true
 		}
 		return s.trace[i].Args[k], true
 	case "vsTraceRetInt", "vsTraceRetErr", "vsTraceRetInt64", "vsTraceRetUint32", "vsTraceRetBytes", "vsTraceRetBool":
